@@ -143,7 +143,11 @@ func c11Event(c obj, rng *rand.Rand) obj {
 		}
 		toks := ""
 		for _, d := range dims {
-			toks += " " + matrixToken(d, rng)
+			// tokens name only dimensions that the permutation also has: a permutation that must be
+			// rejected by VALIDATION must not be rejected by the token substitution (C12) instead
+			if _, inPerm := perm[d]; inPerm || isNil {
+				toks += " " + matrixToken(d, rng)
+			}
 		}
 		step := [][2]any{{"command", "run" + toks}, {"label", "L" + toks}, {"key", "k1"},
 			{"env", obj{"E": "v" + toks}},
